@@ -216,10 +216,6 @@ void prepare_recipe(const MtzToCif& m2c, const Mtz& mtz,
   }
   if (recipe.empty())
     fail("empty translation recipe");
-  for (size_t i = 0; i != recipe.size(); ++i)
-    for (size_t j = i + 1; j != recipe.size(); ++j)
-      if (recipe[i].tag == recipe[j].tag)
-        fail("duplicated output tag: " + recipe[i].tag);
   // H, K, L must be the first columns in MTZ and are required in _refln
   for (int i = 2; i != -1; --i)
     if (!in_vector_f([&](const Trans& t) { return t.col_idx == i; }, recipe)) {
@@ -229,6 +225,10 @@ void prepare_recipe(const MtzToCif& m2c, const Mtz& mtz,
       tr.tag += "hkl"[i]; // h, k or l
       recipe.insert(recipe.begin(), tr);
     }
+  for (size_t i = 0; i != recipe.size(); ++i)
+    for (size_t j = i + 1; j != recipe.size(); ++j)
+      if (recipe[i].tag == recipe[j].tag)
+        fail("duplicated output tag: " + recipe[i].tag);
 }
 
 // data corresponding to one sweep (dataset) in unmerged MTZ file
